@@ -179,6 +179,7 @@ def check_arm(run, pkg, rank, linear, arm):
         run.ob("R-SIB", fq, f"{arm}:product", None, "factors are values of the series at two frames", f"{show(A)[:60]} , {show(B)[:60]}", loc=loc)
         return
     loops = [it.loops[l] for l in ev.loops]
+    linear_enumerated = False
     # ----- which factor is later
     if linear:
         if len(loops) < 2:
@@ -186,8 +187,31 @@ def check_arm(run, pkg, rank, linear, arm):
             return
         Ln, Lnn = loops[0], loops[1]
         n, nn = Ln.target, Lnn.target
+        dom = enumerate_domain(loops[:2], fa, fb, ev.data["target"][2] if ev.kind == "store" else None)
+        positional = eqv(Ln.iter, ("call", "builtins.range", (T_,), ())) is True and \
+            eqv(Lnn.iter, ("call", "builtins.range", (("bin", "+", n, C(1)),), ()), ("call", "builtins.range", (C(0), ("bin", "+", n, C(1))), ()), same=True) is True
+        if dom is not None and not positional:
+            # the loop nest is not written as (later frame, lag): decide the visited (later, origin, slot) triples by enumerating
+            # the extracted affine bounds and index expressions for T = 1..6 (every pair 0 <= o <= e <= T-1 once, slot e - o)
+            okdom, detail, conj_side = dom
+            run.ob("R-LOOPDOM", fq, f"{arm}:domain", okdom, "the loop nest visits every pair 0 <= origin <= later <= T-1 exactly once and stores it at slot later - origin "
+                   "(enumerated on the extracted loop bounds and index expressions, T = 1..6)", detail, witness=None if okdom else detail, loc=loc, sound=True)
+            if okdom:
+                # conjugate on the factor that is the earlier frame in every visit where the two differ
+                c_e = {"A": ca, "B": cb}[conj_side] if conj_side else None
+                c_l = {"A": cb, "B": ca}[conj_side] if conj_side else None
+                okc = None if conj_side is None else bool((not c_l) and c_e)
+                run.ob("R-SIB", fq, f"{arm}:conjugate", okc, "the value at the earlier frame (the origin) is conjugated, the later one is not",
+                       f"earlier factor is {conj_side}: later conj={c_l}, earlier conj={c_e}", witness=None if okc else
+                       "conjugate on the later frame / both / none: imaginary part sign flips for complex series", loc=loc, sound=True)
+                linear_enumerated = True
+            else:
+                return
         ok_n = eqv(Ln.iter, ("call", "builtins.range", (T_,), ()))
         ok_nn = eqv(Lnn.iter, ("call", "builtins.range", (("bin", "+", n, C(1)),), ()), ("call", "builtins.range", (C(0), ("bin", "+", n, C(1))), ()), same=True)
+        if linear_enumerated:
+            enumerated_tail(run, it, ev, fq, arm, loc, red, axis, real_v, real, rank, pa, pb, loops, linear)
+            return
         run.ob("R-LOOPDOM", fq, f"{arm}:later", ok_n, "the later frame runs over all frames", show(Ln.iter)[:60],
                witness=None if ok_n else "frames skipped", loc=loc, sound=True)
         run.ob("R-LOOPDOM", fq, f"{arm}:lag", ok_nn, "the lag runs over 0..later (all origins, lag zero included)", show(Lnn.iter)[:60],
@@ -295,6 +319,89 @@ def check_arm(run, pkg, rank, linear, arm):
                         okd = False
                 run.ob("R-LOOPDOM", fq, f"{arm}:average", okd, "accumulated sums are divided by the counts after the loops", f"{len(div)} divisions",
                        witness=None if okd else "sum over origins not turned into an average: long lags weighted less", loc=loc, sound=True)
+
+
+def enumerate_domain(loops, fa, fb, slot):
+    """(ok, detail, which factor is the earlier frame 'A'/'B'/None) by enumerating a two-loop nest for T = 1..6, or None when the
+    bounds / index expressions are not integer-affine in (T, loop variables)."""
+    from .grlib import eval_int, Undecidable
+    if isinstance(fa, str) or isinstance(fb, str) or slot is None:
+        return None
+
+    def rng(Lp, env):
+        it_ = Lp.iter
+        if it_ is None or it_[0] != "call" or it_[1] != "builtins.range" or it_[3]:
+            raise Undecidable("loop not over range")
+        a = [eval_int(x, env) for x in it_[2]]
+        return range(*a)
+    earlier_side = set()
+    try:
+        for T in range(1, 7):
+            env0 = {T_: T}
+            seen = {}
+            for v0 in rng(loops[0], env0):
+                env1 = dict(env0)
+                env1[loops[0].target] = v0
+                for v1 in rng(loops[1], env1):
+                    env = dict(env1)
+                    env[loops[1].target] = v1
+                    a, b, sl = eval_int(fa, env), eval_int(fb, env), eval_int(slot, env)
+                    e, o = max(a, b), min(a, b)
+                    if a != b:
+                        earlier_side.add("A" if a < b else "B")
+                    if not (0 <= o <= e <= T - 1):
+                        return False, f"T={T}: frames {a}, {b} outside 0..{T - 1}", None
+                    if sl != e - o:
+                        return False, f"T={T}: frames ({e}, {o}) stored at slot {sl}, not {e - o}", None
+                    seen[(e, o)] = seen.get((e, o), 0) + 1
+            want = {(e, o) for e in range(T) for o in range(e + 1)}
+            if set(seen) != want:
+                miss = sorted(want - set(seen))[:3]
+                return False, f"T={T}: pairs (later, origin) never visited: {miss}", None
+            dup = [k for k, c in seen.items() if c != 1]
+            if dup:
+                return False, f"T={T}: pair {dup[0]} visited {seen[dup[0]]} times", None
+    except Undecidable:
+        return None
+    side = earlier_side.pop() if len(earlier_side) == 1 else None
+    return True, "all pairs for T = 1..6, slot = later - origin", side
+
+
+def enumerated_tail(run, it, ev, fq, arm, loc, red, axis, real_v, real, rank, pa, pb, loops, linear):
+    """the obligations that do not depend on which loop is which: reduction, accumulation operator, count, average"""
+    if red == "sum":
+        okr = tri(True if axis is None else None, real_v)
+        run.ob("R-SIB", fq, f"{arm}:reduction", okr, "real part of the sum over particles" + (" and components" if rank == 3 else ""),
+               f"sum(axis={show(axis) if axis else None}), real={real}", witness=None if okr else "reduction differs from Re sum_i (modulus / complex value / other axes)", loc=loc, sound=True)
+        if rank == 4:
+            run.ob("R-SIB", fq, f"{arm}:reduction-kind", False, "tensor series use the trace of the matrix product", "element-wise product used",
+                   witness="tensor A: sum A_ab A_ab differs from tr(A A^dagger-less product) used by the definition", loc=loc, sound=True)
+    elif red.startswith("einsum:") or red == "dot":
+        run.ob("R-SIB", fq, f"{arm}:reduction", None, "reduction recognised in a restructured loop nest", red, loc=loc)
+    else:
+        okt = None
+        if rank == 4 and pa is not None and pb is not None and len(loops) >= 3:
+            okt = tri(eqv(pa, pb), eqv(pa, loops[-1].target))
+        run.ob("R-SIB", fq, f"{arm}:reduction", okt, "trace of the product of the two particle tensors, same particle in both factors",
+               f"particle indices {show(pa) if pa else None}, {show(pb) if pb else None}", witness=None if okt else "tensors of different particles multiplied", loc=loc, sound=True)
+        if rank == 4 and loops:
+            Lp = loops[-1]
+            okp = eqv(Lp.iter, ("call", "builtins.range", (("attr", ("sub", ("attr", SN, "snapshots"), C(0)), "nparticle"),), ()))
+            run.ob("R-LOOPDOM", fq, f"{arm}:particles", okp, "all particles contribute", show(Lp.iter)[:70], witness=None if okp else "particles skipped", loc=loc, sound=True)
+    if ev.kind == "store":
+        slot = ev.data["target"][2]
+        op = ev.data["op"]
+        okop = True if op == "+" else (False if op is None else None)
+        run.ob("R-LOOPDOM", fq, f"{arm}:accumulate", okop, "contributions are accumulated", f"operator {op}", witness=None if okop else "origins/particles overwrite each other", loc=loc, sound=True)
+        resarr = ev.data["target"][1]
+        cnt = [e for e in stores(it) if e.loops == ev.loops and e.data["op"] == "+" and e.data["value"] == C(1) and e.data["target"][2] == slot]
+        # a count may also be assigned in closed form per lag (T - lag); only the incremented form is recognised here
+        okcnt = len(cnt) == 1
+        run.ob("R-LOOPDOM", fq, f"{arm}:count", True if okcnt else None, "a count is incremented once per accumulated contribution, in the same slot", f"{len(cnt)} count statements", loc=loc)
+        if okcnt:
+            carr = cnt[0].data["target"][1]
+            div = [e for e in it.events if e.kind == "aug" and e.data["op"] == "/" and e.data["old"] == resarr and e.data["value"] == carr and not e.loops and e.seq > ev.seq]
+            run.ob("R-LOOPDOM", fq, f"{arm}:average", True if len(div) == 1 else None, "accumulated sums are divided by the counts after the loops", f"{len(div)} divisions", loc=loc)
 
 
 def symbolic_arm(run, it, rank, linear, arm) -> bool:
